@@ -84,12 +84,20 @@ func (g *gen) instr(b *ssa.BasicBlock, idx int, ins ssa.Instruction) {
 		if obj := ins.Object(); obj != nil {
 			if _, isVar := obj.(*types.Var); isVar {
 				if _, known := g.vals[ins.X]; known || isConstLike(ins.X) {
-					g.debugVals[obj.Name()] = debugRef{ins.X, ins.IsAddr}
+					if a, ok := g.allocVars[obj.Pos()]; ok && a.Comment == obj.Name() {
+						// an address-taken variable: its cell is the truth, not the last value assigned
+						g.debugVals[obj.Name()] = debugRef{a, true, obj}
+						return
+					}
+					g.debugVals[obj.Name()] = debugRef{ins.X, ins.IsAddr, obj}
 				}
 			}
 		}
 		return
 	case *ssa.Alloc:
+		if ins.Comment != "" && ins.Pos().IsValid() {
+			g.allocVars[ins.Pos()] = ins
+		}
 		pt := ins.Type().(*types.Pointer).Elem()
 		ref := g.newAlloc("alloc_" + ins.Name())
 		g.zeroInit(ref, pt)
@@ -262,8 +270,53 @@ func (g *gen) deferInstr(ins *ssa.Defer) {
 	}
 }
 
+// goInstr: a spawned function may run at any time until it is joined. Its effects (by contract: the
+// `assigns` places; otherwise its inferred mod set) are applied as a havoc at the spawn and again at
+// the next (*sync.WaitGroup).Wait; interleavings are not modelled (data-race freedom is property C04).
 func (g *gen) goInstr(ins *ssa.Go) {
-	g.unsupportedf("go statement (concurrency is not modelled)")
+	g.assumed["go statements: effects of the spawned function are havocked at spawn and at wg.Wait(); interleavings not modelled"] = true
+	c := &ins.Call
+	var args []Val
+	for _, a := range c.Args {
+		args = append(args, g.val(a))
+	}
+	var callee *ssa.Function
+	var bindings []Val
+	switch v := c.Value.(type) {
+	case *ssa.Function:
+		callee = v
+	case *ssa.MakeClosure:
+		callee = v.Fn.(*ssa.Function)
+		if cv := g.vals[v].Fn; cv != nil {
+			bindings = cv.bindings
+		}
+	}
+	if callee == nil || !g.e.inRepo(callee) {
+		g.havocAllHeap("go: unknown function")
+		g.pendingGo = append(g.pendingGo, func() { g.havocAllHeap("join: unknown goroutine") })
+		return
+	}
+	key := funcKey(callee)
+	g.callSiteClauses(key, args, c, ins.Pos())
+	if ctr := g.e.ctrs[key]; ctr != nil {
+		g.applyContractFn(ctr, key, callee, args, bindings, ins.Pos())
+		if ctr.HasAssign {
+			// the same places may change again until the join; re-evaluated in the state at the join
+			pos := ins.Pos()
+			g.pendingGo = append(g.pendingGo, func() {
+				saveSafety := g.options.safety
+				g.options.safety = false
+				g.applyContractFn(&Contract{Key: ctr.Key, Loops: map[int]*LoopSpec{}, HasAssign: true, Assigns: ctr.Assigns}, key, callee, args, bindings, pos)
+				g.options.safety = saveSafety
+			})
+			return
+		}
+	}
+	ms := g.e.modSetOf(callee)
+	g.frameCheckKeys(ms, ins.Pos(), callee.Name())
+	g.havocKeys(ms)
+	g.tick()
+	g.pendingGo = append(g.pendingGo, func() { g.havocKeys(ms); g.tick() })
 }
 
 // frameCheck: a write must hit a location named in `assigns` or an object allocated by this function.
@@ -311,6 +364,9 @@ func (g *gen) allowedWrite(p *Place) string {
 		switch p.Kind {
 		case plField:
 			if a.Struct == p.Struct && (a.Field == p.Field || a.Field == "*") {
+				if a.Ref == "*" {
+					return "true"
+				}
 				conds = append(conds, eq(a.Ref, p.Ref))
 			}
 		case plCell:
@@ -784,6 +840,7 @@ func (g *gen) bindResults(env *specEnv, sig *types.Signature, rs []Val) {
 type debugRef struct {
 	v      ssa.Value
 	isAddr bool
+	obj    types.Object
 }
 
 func isConstLike(v ssa.Value) bool {
